@@ -5,6 +5,9 @@ import BorshModel.SchemaOf
 import BorshModel.Lemmas.ContainerCodec
 import BorshModel.Theorems.C01
 import BorshModel.Lemmas.SchemaSorted
+import BorshModel.Theorems.C05
+import BorshModel.Theorems.C07
+import BorshModel.Theorems.C16
 namespace Borsh
 
 theorem Out.bind_eq_ok' {α β : Type} {x : Out α} {f : α → Out β} {b : β}
@@ -76,6 +79,92 @@ theorem C17_roundtrip_partial (st : Bool) (u : Ty) (v : Val) (bs : Bytes) (cu : 
   simp only [List.append_nil] at h3
   rw [h3]
   simp [hs, Res.toOut, canon_container cu hc, containerOfVal_toVal]
+
+/-- what `try_to_vec_with_schema` writes is the container's bytes followed by the value's -/
+theorem tryToVecWithSchema_split (u : Ty) (v : Val) (bs : Bytes) (cu : Container)
+    (hs : schemaOf u = .ok cu) (he : tryToVecWithSchema u v = .ok bs) :
+    ∃ cb vb, containerBytes cu = .ok cb ∧ toVec u v = .ok vb ∧ bs = cb ++ vb := by
+  unfold tryToVecWithSchema at he
+  simp only [hs, Res.toOut, Out.bind_ok] at he
+  obtain ⟨cb, hcb, h2⟩ := Out.bind_eq_ok_iff.mp he
+  obtain ⟨vb, hvb, rfl⟩ := Out.map_eq_ok_iff.mp h2
+  exact ⟨cb, vb, hcb, hvb, rfl⟩
+
+/-- **The schema-prefixed reader is a whole-input entry point** (C05 for it): bytes left over after
+the value are rejected with the not-all-bytes-read error, whatever they are. -/
+theorem C17_with_schema_trailing_rejected_partial (st : Bool) (u : Ty) (v : Val) (bs x : Bytes)
+    (cu : Container) (hk : keysOk u = true) (hw : WfTy u = true) (hv : HasTy u v = true)
+    (hs : schemaOf u = .ok cu) (hc : HasTy containerTy (containerToVal cu) = true)
+    (he : tryToVecWithSchema u v = .ok bs) (hx : x ≠ []) :
+    tryFromSliceWithSchema st u (bs ++ x) = .err eNotAllBytesRead := by
+  obtain ⟨cb, vb, hcb, hvb, rfl⟩ := tryToVecWithSchema_split u v bs cu hs he
+  unfold tryFromSliceWithSchema
+  rw [List.append_assoc, C01_roundtrip_stream_partial st containerTy (containerToVal cu) cb (vb ++ x)
+    keysOk_containerTy WfTy_containerTy hc hcb]
+  simp only [Out.bind_ok]
+  rw [C01_roundtrip_stream_partial st u v vb x hk hw hv hvb]
+  cases x with
+  | nil => exact absurd rfl hx
+  | cons a as => simp
+
+/-- … and every proper prefix of a schema-prefixed blob is rejected (cut inside the embedded
+schema or inside the value alike). -/
+theorem C17_with_schema_prefix_rejected_partial (st : Bool) (u : Ty) (v : Val) (p q : Bytes)
+    (cu : Container) (hk : keysOk u = true) (hw : WfTy u = true) (hv : HasTy u v = true)
+    (hs : schemaOf u = .ok cu) (hc : HasTy containerTy (containerToVal cu) = true)
+    (he : tryToVecWithSchema u v = .ok (p ++ q)) (hq : q ≠ []) :
+    (tryFromSliceWithSchema st u p).isOk = false := by
+  cases hr : tryFromSliceWithSchema st u p with
+  | err e => rfl
+  | panic s => rfl
+  | ok x =>
+    exfalso
+    obtain ⟨cv, rest, cu', h1, h2, _, _⟩ := C17_accept_implies_same_schema st u p x hr
+    obtain ⟨cb, vb, hcb, hvb, hsplit⟩ := tryToVecWithSchema_split u v (p ++ q) cu hs he
+    -- the container decode is stable under extension of the input by `q`
+    have e1 := C05_extension st containerTy p q rest cv h1
+    rw [hsplit, C01_roundtrip_stream_partial st containerTy (containerToVal cu) cb vb
+      keysOk_containerTy WfTy_containerTy hc hcb] at e1
+    simp only [Out.ok.injEq, Prod.mk.injEq] at e1
+    -- so the value decoder saw `rest`, and `rest ++ q` is the whole value encoding
+    have e2 := C05_extension st u rest q [] x h2
+    have e3 := C01_roundtrip_stream_partial st u v vb [] hk hw hv hvb
+    rw [List.append_nil] at e3
+    rw [← e1.2, e3] at e2
+    simp only [List.nil_append, Out.ok.injEq, Prod.mk.injEq] at e2
+    exact hq e2.2.symm
+
+/-- **The schema-prefixed reader is safe on untrusted bytes** (C07 / C16 for it): for every byte
+string — hostile embedded schemas included — it answers without a panic, and every refusal has kind
+InvalidData.  (The reader's own schema is generated once from the Rust type; `hs` says that
+generation succeeds, which does not depend on the input.)  The embedded container is only ever
+*decoded and compared*: the model has no call of `validate` or `max_serialized_size` on it. -/
+theorem C17_with_schema_safe (st : Bool) (u : Ty) (bs : Bytes) (cu : Container)
+    (hs : schemaOf u = .ok cu) :
+    (tryFromSliceWithSchema st u bs).isPanic = false ∧
+    ∀ e, tryFromSliceWithSchema st u bs = .err e → e.kind = .invalidData := by
+  unfold tryFromSliceWithSchema
+  cases h1 : deserialize st containerTy bs with
+  | panic s => have := C07_no_panic st containerTy bs; rw [h1] at this; simp [Out.isPanic] at this
+  | err e1 =>
+    refine ⟨rfl, fun e he => ?_⟩
+    simp only [Out.bind_err, Out.err.injEq] at he
+    rw [← he]; exact C16_kind_deserialize st containerTy bs e1 h1
+  | ok r =>
+    simp only [Out.bind_ok]
+    cases h2 : deserialize st u r.2 with
+    | panic s => have := C07_no_panic st u r.2; rw [h2] at this; simp [Out.isPanic] at this
+    | err e2 =>
+      refine ⟨rfl, fun e he => ?_⟩
+      simp only [Out.bind_err, Out.err.injEq] at he
+      rw [← he]; exact C16_kind_deserialize st u r.2 e2 h2
+    | ok q =>
+      simp only [Out.bind_ok, hs, Res.toOut]
+      split
+      · exact ⟨rfl, fun e he => by simp only [Out.err.injEq] at he; rw [← he]; rfl⟩
+      · split
+        · exact ⟨rfl, fun e he => by simp at he⟩
+        · exact ⟨rfl, fun e he => by simp only [Out.err.injEq] at he; rw [← he]⟩
 
 /-- **A foreign schema is rejected**: what `try_to_vec_with_schema::<T>` wrote is never accepted
 by `try_from_slice_with_schema::<U>` when the two types' schemas differ — whatever the value, even
